@@ -443,7 +443,12 @@ func (parser *Parser) findMissingIncludes(seenFiles map[string]*SourceFile,
 	for _, t := range neededTypes {
 		types = append(types, t)
 	}
+	missing := make([]string, 0, len(neededCallables))
 	for c := range neededCallables {
+		missing = append(missing, c)
+	}
+	sort.Strings(missing)
+	for _, c := range missing {
 		errs = append(errs, fmt.Errorf(
 			"Could not find a definition for a stage or pipeline %s",
 			c))
